@@ -53,7 +53,12 @@ Witness == {<<L(i).lo, L(i).lim>> : i \in {j \in 1..Len(Runs) : ~Runs[j].o.msm /
 Within(i, wit) == \E w \in wit : w[1] <= L(i).lo /\ w[2] <= L(i).lim
 SweepWhy(i, wit) ==
     CASE Runs[i].oc \notin Outcomes -> "crash"
-      [] Runs[i].h # Rec.ref /\ Within(i, wit) -> "differs-within-limits"
+      \* an uncaught error must be an ordinary Lua error (ApiErrorRun / ApiErrorError ...), for every
+      \* stack kind alike: a Go panic that PCall merely converted (ApiErrorPanic, "4") is not
+      [] Runs[i].oc = "err" /\ Runs[i].et = "4" -> "error-is-a-converted-go-panic"
+      \* (a program marked straddle always runs into one of the limits, uncaught: which one - and so the
+      \* message - depends on the tuple; only the kind of its outcome is judged)
+      [] ~Rec.straddle /\ Runs[i].h # Rec.ref /\ Within(i, wit) -> "differs-within-limits"
       [] OTHER -> ""
 
 (* ---- probe ------------------------------------------------------------------- *)
@@ -73,9 +78,14 @@ ProbeWhy(i, cal) ==
     LET r == Runs[i] IN
     CASE r.oc \notin Outcomes -> "crash"
       [] r.np = 0 -> (IF Rec.B0 > L(i).lo THEN "" ELSE "died-before-probe")
+      \* nmax > 0: a probe that nests coroutine resumes (each level runs in its own thread, so neither lo/hi nor
+      \* lim bounds it; every level nests host calls).  As in Lua 5.1 (LUAI_MAXCCALLS, "C stack overflow") the
+      \* nesting must end in an ordinary error after at most nmax levels - an unbounded one ends in a fatal
+      \* host stack overflow that nothing can catch.
+      [] Rec.nmax > 0 /\ r.n > Rec.nmax -> "nested-resumes-unbounded"
       [] r.pok \/ r.ety # "string" -> "not-caught"
-      [] ~\E p \in cal : Entered(i, p[1], p[2]) -> "beyond-hard-limit"
-      [] ~\E p \in cal : Entered(i, p[1], p[2]) /\ Failed(i, p[1], p[2]) -> "overflow-below-limit"
+      [] Rec.nmax = 0 /\ ~\E p \in cal : Entered(i, p[1], p[2]) -> "beyond-hard-limit"
+      [] Rec.nmax = 0 /\ ~\E p \in cal : Entered(i, p[1], p[2]) /\ Failed(i, p[1], p[2]) -> "overflow-below-limit"
       [] r.np < 2 \/ ~r.aok \/ r.av # r.n -> "state-after-overflow"
       [] r.np < 3 \/ r.f # Follow -> "follow-up"
       [] r.oc # "ok" -> "outcome"
@@ -86,7 +96,7 @@ BadRuns ==
     THEN LET wit == Witness IN
          {<<i, SweepWhy(i, wit)>> : i \in {j \in 1..Len(Runs) : SweepWhy(j, wit) # ""}}
     ELSE LET cal == Cal IN
-         IF cal = {} THEN {<<0, "calibration">>}
+         IF cal = {} /\ Rec.nmax = 0 THEN {<<0, "calibration">>}
          ELSE {<<i, ProbeWhy(i, cal)>> : i \in {j \in 1..Len(Runs) : ProbeWhy(j, cal) # ""}}
 
 Verdict == LET b == BadRuns IN
